@@ -69,6 +69,8 @@ func (g *Gen) evalBool(x *CExpr, env *Env) (string, error) {
 }
 
 // sortOfTypeName maps a type name used in contracts to an SMT sort and (if it names a Go type) the Go type.
+var reByteArray = regexp.MustCompile(`^\[([0-9]+)\]byte$`)
+
 func (g *Gen) sortOfTypeName(name string, pkg *types.Package) (string, types.Type, error) {
 	switch name {
 	case "int", "int64", "int32", "int16", "int8", "uint", "uint64", "uint32", "uint16", "uint8", "byte", "Int":
@@ -122,6 +124,11 @@ func (g *Gen) sortOfTypeName(name string, pkg *types.Package) (string, types.Typ
 			return "Int", types.NewPointer(t), nil
 		}
 		return "Int", nil, nil
+	}
+	if m := reByteArray.FindStringSubmatch(name); m != nil {
+		n := int64(0)
+		fmt.Sscan(m[1], &n)
+		return "Str", types.NewArray(types.Typ[types.Uint8], n), nil
 	}
 	if strings.HasPrefix(name, "[]") {
 		_, t, _ := g.sortOfTypeName(name[2:], pkg)
